@@ -59,19 +59,25 @@ def parseIsotopeMods (mods : List Mod) : Except Err (List (Key × Key)) := do
     | none => m
   pure m
 
+/-- one entry `element ↦ label` of `apply_isotope_mods_to_composition`: the element's count moves to the label -/
+def relabel1 (c : Comp) (el lab : Key) : Comp :=
+  match lookup el c with
+  | none => c
+  | some n =>
+    if el = lab then c
+    else
+      let c' := match lookup lab c with
+        | some k => setKey c lab (k + n)
+        | none => c ++ [(lab, n)]
+      delKey c' el
+
+/-- all entries of the label map, in dict order, each seeing the composition left by the previous ones -/
+def relabel (c : Comp) (map : List (Key × Key)) : Comp := map.foldl (fun c p => relabel1 c p.1 p.2) c
+
 /-- `apply_isotope_mods_to_composition` -/
 def applyIsotopeMods (c : Comp) (mods : List Mod) : Except Err Comp := do
   let map ← parseIsotopeMods mods
-  pure (map.foldl (fun (c : Comp) (p : Key × Key) =>
-    match lookup p.1 c with
-    | none => c
-    | some n =>
-      if p.1 = p.2 then c
-      else
-        let c' := match lookup p.2 c with
-          | some k => setKey c p.2 (k + n)
-          | none => c ++ [(p.2, n)]
-        delKey c' p.1) c)
+  pure (relabel c map)
 
 /-! ### condense_static_mods -/
 
